@@ -90,6 +90,21 @@ type Env struct {
 	mixed int    // evaluating under an equivalence (both polarities)
 }
 
+// equalView: identity of two values as the solver sees them (same view for
+// strings, same term otherwise).
+func (e *Env) equalView(a, b CV) T {
+	if a.k == cvVal && a.v.sh.kind == KStr {
+		a = CV{k: cvStr, arr: a.v.strArr(), off: a.v.strOff(), n: a.v.strLen()}
+	}
+	if b.k == cvVal && b.v.sh.kind == KStr {
+		b = CV{k: cvStr, arr: b.v.strArr(), off: b.v.strOff(), n: b.v.strLen()}
+	}
+	if a.k == cvStr && b.k == cvStr {
+		return and(eq(a.arr, b.arr), eq(a.off, b.off), eq(a.n, b.n))
+	}
+	return e.equal(a, b)
+}
+
 func (e *Env) child() *Env {
 	n := *e
 	n.vars = map[string]CV{}
